@@ -20,6 +20,27 @@ def _root_name(node):
     return node.id if isinstance(node, ast.Name) else None
 
 
+_ALIASING_CALLS = {'np.asarray', 'numpy.asarray', 'np.asanyarray', 'numpy.asanyarray', 'np.ascontiguousarray', 'np.ravel', 'np.reshape', 'np.squeeze', 'np.atleast_1d'}
+_ALIASING_METHODS = {'view', 'reshape', 'ravel', 'squeeze', 'transpose', 'swapaxes'}
+
+
+def _keeps_alias(value, name):
+    """the right-hand side is (possibly) the very array `name` refers to: numpy returns the argument itself or a view of it"""
+    if value is None:
+        return False
+    if isinstance(value, ast.Name):
+        return value.id == name
+    if isinstance(value, ast.Call):
+        fn = ast.unparse(value.func)
+        if fn in _ALIASING_CALLS and value.args and isinstance(value.args[0], ast.Name) and value.args[0].id == name:
+            return True
+        if isinstance(value.func, ast.Attribute) and value.func.attr in _ALIASING_METHODS and isinstance(value.func.value, ast.Name) and value.func.value.id == name:
+            return True
+    if isinstance(value, ast.Attribute) and value.attr == 'T' and isinstance(value.value, ast.Name) and value.value.id == name:
+        return True
+    return False
+
+
 class Effects:
     def __init__(self, prog: Program):
         self.prog = prog
@@ -47,6 +68,8 @@ class Effects:
                     for t in tgts:
                         for tt in (t.elts if isinstance(t, (ast.Tuple, ast.List)) else [t]):
                             if isinstance(tt, ast.Name) and tt.id in params:
+                                if _keeps_alias(getattr(n, 'value', None), tt.id):
+                                    continue        # p = np.asarray(p) / p = p.reshape(..) still is the caller's array
                                 rebound[tt.id] = min(rebound.get(tt.id, 10 ** 9), n.lineno)
             self.rebound = getattr(self, 'rebound', {})
             self.rebound[q] = rebound
